@@ -219,6 +219,43 @@ def rule_trim_width(ctx: Ctx) -> RuleResult:
     return rr
 
 
+def rule_segment_width(ctx: Ctx, clause: str = "C03.13") -> RuleResult:
+    """A text segment (columns, start, end) whose width was measured with calc_width(text, a, b) must be measured
+    over exactly the offsets it covers (a = start, b = end): alignment and trimming trust the declared width."""
+    from ..rules.defuse import DefUse
+
+    p = ctx.p
+    rr = RuleResult("PAIR", clause, "a layout segment (columns, start, end) measured with calc_width is measured over its own offsets", floor=3)
+    for q in (f"{STL}.calculate_text_segments", f"{STL}._calculate_trimmed_segments"):
+        fi = p.func(q)
+        du = DefUse(fi)
+        for node in du.cfg.nodes:
+            if node.ast is None or node.kind in ("for", "with", "handler"):
+                continue
+            for t in walk_no_nested(node.ast):
+                if not (isinstance(t, ast.Tuple) and len(t.elts) == 3 and isinstance(t.ctx, ast.Load) and isinstance(t.elts[0], ast.Name)):
+                    continue
+                for v, how, dn in du.reaching(t.elts[0].id, node):
+                    if not (isinstance(v, ast.Call) and callee_name(v) == "calc_width" and len(v.args) == 3):
+                        continue
+                    a, b = du.text(v.args[1], dn), du.text(v.args[2], dn)
+                    s_, e_ = du.text(t.elts[1], node), du.text(t.elts[2], node)
+                    # compare the unexpanded spellings first (same names at both sites), else the expansions
+                    def spellings(e, at):
+                        out = {ast.unparse(e), du.text(e, at)}
+                        if isinstance(e, ast.Name):
+                            out |= {ast.unparse(dv) for dv, _h, _d in du.reaching(e.id, at) if isinstance(dv, ast.AST)}
+                        return out
+
+                    # branch-correlated definitions (end_off = nl_pos on the untrimmed path) are accepted: the measured
+                    # offset has to be one of the values the segment's offset can have
+                    same = bool(spellings(v.args[1], dn) & spellings(t.elts[1], node)) and bool(spellings(v.args[2], dn) & spellings(t.elts[2], node))
+                    rr.inst(f"{short(fi)}:{norm(t, 40)}<-{norm(v, 40)}", True, {"segment": norm(t, 50), "measured": norm(v, 50)} if len(rr.samples) < 6 else None)
+                    if not same:
+                        rr.add(finding("PAIR", fi, dn.stmt, f"the segment `{norm(t, 50)}` covers offsets {ast.unparse(t.elts[1])}..{ast.unparse(t.elts[2])} but its width was measured as `{norm(v, 50)}`: the line declares fewer (or more) columns than its text occupies, alignment over-pads it and the canvas is wider than requested", construct=f"segment width measured over other offsets: {norm(v, 50)}"))
+    return rr
+
+
 def run(ctx: Ctx):
     p = ctx.p
     # the text-consuming loops of the layout class (calc_pos's search loop pops from the lists its test reads and is
@@ -239,6 +276,8 @@ def run(ctx: Ctx):
         rule_reopen(ctx),
         accum.run_accum(p, "C03.9", "C03", floor=3),
         rule_trim_width(ctx),
+        rule_segment_width(ctx),
+        c11.rule_scan_exit_twins(ctx, "C03.14"),
         loopfresh.run_loopfresh(p, "C03.12", "C03", floor=6),
         offstep.run_offstep(p, "C03.10", [f.qualname for f in p.modules[TL].functions], floor=5),
     ]
@@ -246,6 +285,7 @@ def run(ctx: Ctx):
 
 _T = "urwid/text_layout.py"
 MUTANTS = [
+    Mut("wide-wrap-width-of-sibling-branch", _T, "StandardTextLayout.calculate_text_segments", "                    screen_columns = calc_width(text, idx, next_char)", "                    screen_columns = calc_width(text, idx, prev)", "PAIR|text_layout.StandardTextLayout.calculate_text_segments"),
     Mut("pad-right-carried-to-next-line", _T, "StandardTextLayout._calculate_trimmed_segments", "                trimmed = False\n                end_off = nl_pos\n                pad_right = 0\n", "                trimmed = False\n                end_off = nl_pos\n", "LOOPFRESH|text_layout.StandardTextLayout._calculate_trimmed_segments", also=[("        ellipsis_char = ellipsis_string.encode(encoding)\n\n        idx = 0\n", "        ellipsis_char = ellipsis_string.encode(encoding)\n\n        idx = 0\n        pad_right = 0\n")]),
     Mut("ellipsis-segment-one-column-short", _T, "StandardTextLayout._calculate_trimmed_segments", "screen_columns = width - ellipsis_width - pad_right", "screen_columns = width - 1 - pad_right", "PAIR|text_layout.StandardTextLayout._calculate_trimmed_segments"),
     Mut("ellipsis-segment-ignores-pad", _T, "StandardTextLayout._calculate_trimmed_segments", "screen_columns = width - ellipsis_width - pad_right", "screen_columns = width - ellipsis_width", "PAIR|text_layout.StandardTextLayout._calculate_trimmed_segments"),
